@@ -83,10 +83,14 @@ fn placements(n: usize, max: usize) -> Vec<Vec<usize>> {
 
 pub fn f1_alphabet(max_esc: usize, thorough: bool) -> Vec<(String, Frame)> {
     let mut v = Vec::new();
-    for ty in [0x31u8, 0x32, 0x33] {
+    // (type '4' = receiver status records: part of the stream, skipped by the framer - skipping must be as careful about
+    // escapes as handing on)
+    for ty in [0x31u8, 0x32, 0x33, 0x34] {
         let n = body_len(ty);
         for p in placements(n, max_esc) {
-            let fillers: &[u8] = if p.len() <= 1 || thorough { &[0, 1, 2] } else { &[0] };
+            // (status records with two escapes also get the type-byte look-alike filler in the quick tier: what follows
+            // an escape decides what a careless skip leaves behind)
+            let fillers: &[u8] = if p.len() <= 1 || thorough { &[0, 1, 2] } else if ty == 0x34 { &[0, 1] } else { &[0] };
             for f in fillers {
                 v.push((format!("type={} esc={:?} filler={}", ty as char, p, f), frame(ty, &p, *f, 0)));
             }
